@@ -58,6 +58,19 @@ def make_groups(cat, gold, tier):
     G.append(stack_group("nosv-subsystem", "nosv", 13, ["VAr", "VMa"]))
     G.append(stack_group("mpi-function", "mpi", 25, ["MW[", "MSs"]))
     G.append(stack_group("kernel-cs", "kernel", 45, ["KCO"]))
+    # several models at once in one thread: a region of nOS-V, an MPI function and a kernel context switch interleaved, with
+    # all eight models enabled (each quantity must keep following its own rule whatever the others do)
+    allm = {m: ver(m) for m in ("nosv", "nanos6", "nodes", "mpi", "tampi", "openmp", "kernel")}
+    mixes = [("mixed-nosv-mpi", [13, 25], ("VAr", "MW["))]
+    if tier != "quick":
+        mixes.append(("mixed-nosv-mpi-kernel", [13, 25, 45], ("VAr", "MW[", "KCO")))
+    for nm, tys, picks in mixes:
+        g = Group(nm, allm, tys)
+        for mcv in picks:
+            e = ent[mcv]
+            g.add(mcv, mcv, [(e["type"], "push", (mcv, e["value"]))])
+            g.add(e["leave"], e["leave"], [(e["type"], "pop", (mcv, e["value"]))])
+        G.append(g)
     # idle: set channels, initial value Progressing (100), CPU default Resting
     for nm, model, ty, c in (("nosv-idle", "nosv", 16, "V"), ("nanos6-idle", "nanos6", 40, "6")):
         g = Group(nm, {model: ver(model)}, [ty], init={ty: (("init", 100),)})
